@@ -101,6 +101,16 @@ static void m_process(void)
 
 /* ---- preemption ----------------------------------------------------------- */
 #if ISR != 0
+/* at every lock / unlock point of COTmrProcess the event pool is complete: the event being processed is already back
+ * in the free list (its detached action chain is private to the processing step, so only events are counted here) */
+static void check_events(void)
+{
+    CO_TMR *t = &node.Tmr; CO_TMR_TIME *e; uint32_t ev = 0, i;
+    for (e = t->Free, i = 0; (e != 0) && (i <= P); e = e->Next, i++) { ev++; }
+    for (e = t->Use, i = 0; (e != 0) && (i <= P); e = e->Next, i++) { ev++; }
+    for (e = t->Elapsed, i = 0; (e != 0) && (i <= P); e = e->Next, i++) { ev++; }
+    CHECK(ev == P, "event pool conserved at every preemption point inside the processing step");
+}
 #ifndef NPRE
 #define NPRE 24
 #endif
@@ -135,6 +145,9 @@ void env_preempt_point(void)
     }
 #endif
     if (f) { do_isr_tick(); }
+#if ISR >= 2
+    if (in_process) { check_events(); }
+#endif
 }
 #endif
 
